@@ -117,7 +117,21 @@ impl Check for C05 {
                 )
             }
         };
-        ReadCase { spec, input: Arc::new(gi.bytes), cfg, script, driver, class: gi.class }
+        let mut rc = ReadCase { spec, input: Arc::new(gi.bytes), cfg, script, driver, class: gi.class };
+        // one run in ten combines what rarely meets by chance: masters that occur in the input requested as Full items,
+        // closing off, a source that runs dry several times and resumes, and a caller that recovers from every error
+        if rng.chance(1, 10) && n > 4 {
+            let present: Vec<u64> = rc.spec.masters().into_iter().filter(|m| { let ib = crate::enc::id_bytes(*m); rc.input.windows(ib.len()).any(|w| w == &ib[..]) }).collect();
+            if !present.is_empty() {
+                rc.cfg.buffered = (0..rng.range(1, 2)).map(|_| *rng.pick(&present)).collect();
+                rc.cfg.buffered.dedup();
+                rc.cfg.eof_end = false;
+                rc.script.pauses = (0..rng.range(3, 10)).map(|_| rng.range(1, n - 1)).collect();
+                rc.driver = Driver::Recovering { max_errors: 40, extra: rng.range(0, 2) };
+                rc.class = if rc.class == "valid" { "valid" } else { rc.class };
+            }
+        }
+        rc
     }
 
     fn exec(&self, rc: &ReadCase, st: &mut Stats) -> Result<ExecOk, Fail> {
